@@ -30,6 +30,13 @@ def run(ctx) -> None:
     ctx.rule("e.target-applied", "the widened dtype is applied (promotion with element conversion, nullability) before the store", 20)
     ctx.rule("f.table-delegation", "Table.__setitem__ resolves all target columns before any store and every store is "
                                    "self._underlying[idx][rows] = value (delegation to the column's own atomic write)", 4)
+    ctx.rule("g.slice-length", "typeutils.slice_length takes start/stop/step from slice.indices(n) and clamps a closed-form length "
+                               "with max(0, ...) (or delegates to len(range(...))): without the clamp a slice whose start lies on the "
+                               "wrong side of stop gets a non-zero length. NECESSARY condition only - the arithmetic itself is not decided", 1)
+    ctx.rule("h.fresh-map", "Table.__setitem__ (and helpers it calls on self) read the accessor map only through "
+                            "_current_column_map(): after a rename through a live column the wrong cells would be addressed", 1)
+    ctx.section("slice-length", _slice_length, ctx)
+    ctx.section("fresh-map", _fresh_map, ctx)
     ctx.section("atomic", _atomic, ctx)
     ctx.section("rename", _rename, ctx)
     ctx.section("keys", _keys, ctx)
@@ -39,6 +46,57 @@ def run(ctx) -> None:
     ctx.info("multi-column table assignment (t[0, :] = [1, 'x']) writes column 0 before column 1 rejects: the statement's "
              "atomicity sentence speaks of 'the vector'; reported as information only")
     ctx.not_decided += ["equality with Python list assignment as values (index arithmetic of slice_length / range is numeric)"]
+
+
+def _slice_length(ctx) -> None:
+    prog = ctx.prog
+    f = prog.func("typeutils.slice_length")
+    sp, n = f.params[0], f.params[1]
+    problems = []
+    unpack = [s for s in f.body if isinstance(s, ast.Assign) and isinstance(s.targets[0], ast.Tuple) and len(s.targets[0].elts) == 3
+              and short(s.value) == f"{sp}.indices({n})"]
+    rets = [s for s in walk_stmts(f.body) if isinstance(s, ast.Return)]
+    delegated = any(short(r.value) in (f"len(range(*{sp}.indices({n})))",) for r in rets)
+    if not delegated:
+        if not unpack:
+            problems.append(f"start/stop/step are not taken from {sp}.indices({n})")
+        for r in rets:
+            v = r.value
+            if not (isinstance(v, ast.Call) and short(v.func) == "max" and len(v.args) == 2
+                    and any(isinstance(a, ast.Constant) and a.value == 0 for a in v.args)):
+                problems.append(f"`{short(r, 70)}` is not clamped with max(0, ...): a slice like v[3:1] would get a non-zero (or negative) length")
+        if len(rets) == 1 and isinstance(rets[0].value, ast.Call) and rets[0].value.args:
+            body = [a for a in rets[0].value.args if not isinstance(a, ast.Constant)]
+            names = {x.id for a in body for x in ast.walk(a) if isinstance(x, ast.Name)}
+            if unpack:
+                want = {e.id for e in unpack[0].targets[0].elts}
+                if not want <= names:
+                    problems.append(f"the length formula ignores {sorted(want - names)}")
+    ctx.ob("g.slice-length", f, "clamp", not problems, "slice length = max(0, closed form over slice.indices) or len(range(...))", f.node,
+           message="slice_length: " + "; ".join(problems))
+
+
+def _fresh_map(ctx) -> None:
+    prog = ctx.prog
+    f = prog.func("table.Table.__setitem__")
+    todo, seen = [f], set()
+    bad = []
+    while todo:
+        g = todo.pop()
+        if g.qualname in seen:
+            continue
+        seen.add(g.qualname)
+        for n in walk_no_nested(g.node):
+            if isinstance(n, ast.Attribute) and n.attr == "_column_map" and isinstance(n.ctx, ast.Load) \
+                    and g.qualname != "table.Table._current_column_map":
+                bad.append(f"{g.qualname}:{n.lineno} reads `{short(n)}` directly")
+        for c in prog.calls_in(g):
+            kind, tgt = prog.resolve_call(g, c)
+            if kind == "method" and tgt is not None and tgt.cls == "Table" and isinstance(c.func, ast.Attribute) \
+                    and short(c.func.value) == "self" and tgt.name not in ("__getitem__",):
+                todo.append(tgt)
+    ctx.ob("h.fresh-map", f, "map-reads", not bad, f"accessor map read only through _current_column_map() ({len(seen)} functions followed)", f.node,
+           message="Table.__setitem__ resolves column names in a possibly stale accessor map: " + "; ".join(bad[:3]))
 
 
 # ---------------------------------------------------------------------------------------------
@@ -276,6 +334,19 @@ def _table(ctx) -> None:
 
 _V, _T = "vector", "table"
 MUTANTS = [
+    dict(id="slice-length-unclamped", module="typeutils",
+         old="    return max(0, (stop - start + (step - (1 if step > 0 else -1))) // step)",
+         new="    return (stop - start + (step - (1 if step > 0 else -1))) // step", rules=["g.slice-length"],
+         desc="v[3:1] = [] then sees a negative length; v[3:1] = [x] is compared against -1"),
+    dict(id="slice-length-abs", module="typeutils",
+         old="    return max(0, (stop - start + (step - (1 if step > 0 else -1))) // step)",
+         new="    return abs((stop - start + (step - (1 if step > 0 else -1))) // step)", rules=["g.slice-length"]),
+    dict(id="twin-slice-length-range", module="typeutils", twin=True,
+         old="    start, stop, step = s.indices(sequence_length)\n    return max(0, (stop - start + (step - (1 if step > 0 else -1))) // step)",
+         new="    return len(range(*s.indices(sequence_length)))"),
+    dict(id="table-setitem-stale-map", module="table",
+         old="			# Look up by name (map refreshed if a column was renamed)\n			column_map = self._current_column_map()",
+         new="			# Look up by name\n			column_map = self._column_map", rules=["h.fresh-map"]),
     dict(id="promote-before-index-checks", module=_V,
          old="		n = len(self)\n		underlying = self._underlying  # local bind",
          new="		n = len(self)\n		if isinstance(value, float) and self._dtype is not None and self._dtype.kind is int:\n			self._promote(float)\n		underlying = self._underlying  # local bind",
